@@ -58,10 +58,16 @@ func eth2Kinds() []valgen.Kind {
 func TestC09Aggregate(t *testing.T) {
 	vstat.Rule("C09", rule)
 	vstat.Assume("partials handed to the aggregator are what the partial-signature store hands over: >= t entries of distinct shares unless a corruption says otherwise; unsigned metadata (aggregation bits, validator index) is not part of the signed content")
-	bn := fakebn.New()
+	// two fork schedules: forks spread over the epoch range, and (as test networks start) the first forks all
+	// active from genesis, where the fork version in force at epoch 0 is not the genesis fork version
+	bns := []*fakebn.BN{fakebn.New(), fakebn.NewGenesisForks(4)}
 	ctx := context.Background()
 	kinds := eth2Kinds()
 	rapid.Check(t, func(rt *rapid.T) {
+		bn := bns[0]
+		if rapid.IntRange(0, 2).Draw(rt, "forksAtGenesis") == 0 {
+			bn = bns[1]
+		}
 		k := kinds[rapid.IntRange(0, len(kinds)-1).Draw(rt, "kind")]
 		n := rapid.IntRange(3, 7).Draw(rt, "n")
 		thr := (2*n + 2) / 3
@@ -127,7 +133,7 @@ func TestC09Aggregate(t *testing.T) {
 					switch {
 					case strings.HasSuffix(l.Path, ".Slot"):
 						x := uint64(fork.Epoch) * bn.SPE
-						if before {
+						if before && x > 0 {
 							x--
 						}
 						l.Set(x)
@@ -330,6 +336,25 @@ func TestC09Aggregate(t *testing.T) {
 				}
 			}
 		}
+		// A clean call after a failed one on the same aggregator: the honest partials of one validator that was
+		// not the corrupted one. Exactly that validator is published, nothing the failed call had worked on.
+		if corruption != "none" && nVals > 1 && rapid.Bool().Draw(rt, "cleanCallAfterFailedOne") {
+			u := vals[(corruptVal+1+rapid.IntRange(0, nVals-2).Draw(rt, "cleanValidator"))%nVals]
+			before := len(got)
+			err3 := agg.Aggregate(ctx, duty, map[core.PubKey][]core.ParSignedData{u.pub: input[u.pub]})
+			if err3 != nil || len(got) != before+2 {
+				rt.Fatalf("HONEST PARTIALS REJECTED after a failed call on the same aggregator: %s: err=%v, %d new subscriber calls", k.Name, err3, len(got)-before)
+			}
+			for _, set := range got[before:] {
+				if len(set) != 1 {
+					rt.Fatalf("PUBLISHED WHAT THE CALL DID NOT CARRY: %s: a call with the partials of one validator, made after a failed %d-validator call (%s), published %d validators", k.Name, nVals, corruption, len(set))
+				}
+				if err := specsign.Verify(bn, u.group, set[u.pub]); err != nil {
+					rt.Fatalf("INVALID GROUP SIGNATURE PUBLISHED after a failed call: %s: %v", k.Name, err)
+				}
+			}
+			vstat.Count("clean_call_after_failed_call", 1)
+		}
 		// A second call on the same aggregator (a node runs one aggregator for its whole life): the partial
 		// signatures that were just accepted come again, attached to other content, or offered under another
 		// validator's key; or simply once more. Only the last may publish.
@@ -392,7 +417,7 @@ func TestC09Aggregate(t *testing.T) {
 		spec0, _ := specsign.Of(bn, vals[0].value)
 		fork := bn.ForkAt(spec0.Epoch).Name
 		nontrivial := nVals > 1 || corruption != "none" || followUp != "none"
-		vstat.Case(fmt.Sprintf("%s/%d/%d/%s/%s/%s", k.Name, n, thr, corruption, followUp, fpParts), nontrivial, "type:"+k.Name, "corruption:"+corruption, "second_call:"+followUp, cls("transient_beacon_spec_fault", specFaults > 0), "fork_of_epoch:"+fork, cls("multi_validator", nVals > 1))
+		vstat.Case(fmt.Sprintf("%s/%d/%d/%s/%s/%s", k.Name, n, thr, corruption, followUp, fpParts), nontrivial, "type:"+k.Name, "corruption:"+corruption, "second_call:"+followUp, cls("transient_beacon_spec_fault", specFaults > 0), "fork_of_epoch:"+fork, cls("multi_validator", nVals > 1), cls("schedule_with_forks_at_genesis", bn == bns[1]), cls("object_of_epoch_0", spec0.Epoch == 0))
 		if nontrivial && vstat.WantSample(corruption) {
 			vstat.Sample(corruption, map[string]any{"type": k.Name, "n": n, "t": thr, "validators": nVals, "corruption": corruption, "subsets": fpParts, "domain": spec0.Domain, "fork_of_epoch": fork})
 		}
